@@ -4,9 +4,13 @@
 // recursive / generic types, has the library generate their schemas in child processes (a crash or
 // a runaway generator must not kill the monitor), and judges every document with a Python
 // jsonschema oracle (meta-schema, $ref resolution, instance acceptance) and with encoding/json
-// itself (field names, typed binding). Files: spec.go (type grammar, features, tree edits), gen.go
-// (stage-1 corpus, stage-2 generator), populate.go (values, names oracle), eval.go (pipeline),
-// child.go / bind.go (child roles), oracle.go + oracle.py (reference oracle), corpus/ (compiled types).
+// itself (field names, typed binding). Stage 3 (history.go) checks that the document for a type does
+// not depend on what the process generated before: one child generates a pool of kindred types in
+// seeded order, repeatedly and concurrently, and every document is compared with the one of a fresh
+// process. Files: spec.go (type grammar, features, tag classes, tree edits), gen.go (stage-1 corpus,
+// stage-2 generator), populate.go (values inside / outside the tag zones, names oracle), eval.go
+// (pipeline, fresh-process regeneration), history.go (stage 3), child.go / bind.go (child roles),
+// oracle.go + oracle.py (reference oracle), corpus/ (compiled types).
 package main
 
 import (
@@ -73,6 +77,9 @@ func main() {
 		return
 	case "bind":
 		childBind()
+		return
+	case "hist":
+		childHist()
 		return
 	}
 	kit.Silence()
@@ -201,8 +208,26 @@ func main() {
 		s2cases = append(s2cases, evalCase{ID: fmt.Sprintf("s2-%d", len(s2specs)), Spec: spec, Styles: allStyles})
 		s2specs = append(s2specs, spec)
 	}
-	r.Count("types_generated", int64(len(s1)+len(s2specs)))
 	r.Count("stage2_random_types", int64(len(s2specs)-len(pairOf)))
+	// the types of the history sessions (stage 3) are judged alone here, like every other type
+	gh := &gen{rng: r.Rand("stage3-types")}
+	hrng := r.Rand("stage3-plan")
+	var sessions []histSession
+	for i := 0; i < r.Pick(2, 10); i++ {
+		pool := buildPool(hrng, gh, r.Pick(8, 10), r.Pick(5, 12))
+		sessions = append(sessions, planSession(hrng, pool, r.Pick(2, 3), r.Pick(4, 8)))
+		for j := range pool {
+			cn := canon(&pool[j])
+			if seenCanon[cn] {
+				continue
+			}
+			seenCanon[cn] = true
+			s2cases = append(s2cases, evalCase{ID: fmt.Sprintf("s2-%d", len(s2specs)), Spec: pool[j], Styles: allStyles})
+			s2specs = append(s2specs, pool[j])
+			r.Count("stage2_history_pool_types", 1)
+		}
+	}
+	r.Count("types_generated", int64(len(s1)+len(s2specs)))
 	s2res := ev.Evaluate(s2cases, 100)
 	phase("stage2-evaluated")
 
@@ -320,6 +345,7 @@ func main() {
 		}
 	}
 	r.Count("ddmin_cases", int64(len(dd)))
+	ev.noRecheck = true
 	for round := 0; round < 120; round++ {
 		var cases []evalCase
 		type ref struct{ k, j int }
@@ -371,6 +397,14 @@ func main() {
 			for j := range cands[k] {
 				cr := res[pairKey(fmt.Sprintf("dd%d-%d-%d", round, k, j), d.style)]
 				if cr != nil && cr.Incon == "" && cr.failed(d.check) {
+					// the candidates were generated in batches: the one that is taken has to fail alone as well
+					if d.check != ckNonterm {
+						cr = ev.Alone(&cands[k][j], d.style)
+						if cr.Incon != "" || !cr.failed(d.check) {
+							r.Count("ddmin_candidates_not_failing_alone", 1)
+							continue
+						}
+					}
 					d.spec, d.res, moved = cands[k][j], cr, true
 					d.steps++
 					break
@@ -382,6 +416,7 @@ func main() {
 		}
 		r.Max("ddmin_rounds", int64(round+1))
 	}
+	ev.noRecheck = false
 	phase("stage2-minimised")
 	for _, d := range dd {
 		label := labelOf(featuresOf(&d.spec))
@@ -399,6 +434,61 @@ func main() {
 			r.Sample(map[string]interface{}{"stage": 2, "features": label, "style": d.style, "go_type": goString(&d.spec), "verdict": d.check,
 				"schema": bounded(d.res.Schema, 1024), "instance": bounded(d.res.Instances[0], 400), "detail": d.res.Fails[d.check], "found_in": firstN(d.origin, 600)})
 		}
+	}
+
+	// ------------------------------------------------------------------ batch verdicts a fresh process did not reproduce
+	reportBatch := func() {
+		ev.histMu.Lock()
+		hist := ev.hist
+		ev.hist = nil
+		ev.histMu.Unlock()
+		for _, bf := range hist {
+			r.Count("batch_verdicts_not_reproduced_alone", 1)
+			var diffs []docDiff
+			class := "no-document"
+			if bf.Batch.Schema != nil && bf.Alone.Schema != nil {
+				_, a := normDoc(bf.Alone.Schema)
+				_, b := normDoc(bf.Batch.Schema)
+				diffDocs(a, b, "", "", "", &diffs)
+				class, _ = diffClass(diffs)
+			}
+			donors := findDonors(diffs, bf.Before, nil, kinOf(&bf.Spec))
+			for _, ck := range allChecks {
+				if !bf.Batch.failed(ck) || bf.Alone.failed(ck) {
+					continue // fails alone as well: reported by the stage
+				}
+				r.Count("fail_"+ck, 1)
+				w := witness("2 (batch of types in one process)", &bf.Spec, bf.Batch, ck, map[string]interface{}{
+					"differences_from_fresh_process": diffs, "came_from": donors, "schema_of_fresh_process": bounded(bf.Alone.Schema, 1024),
+					"types_generated_before_in_the_process": len(bf.Before)})
+				if len(donors) == 0 {
+					var idx []int
+					for i := range bf.Before {
+						idx = append(idx, i)
+					}
+					w["generated_before"] = poolStringsIdx(bf.Before, idx, 8)
+				}
+				from := ""
+				if len(donors) > 0 {
+					from = fmt.Sprintf("; %s comes from field %s `%s` of a type generated earlier", donors[0].Keyword, donors[0].Field, donors[0].Tag)
+				}
+				r.Violation(fmt.Sprintf("C18|history|batch|style=%s|%s|%s", bf.Style, class, ck),
+					fmt.Sprintf("style %s, generated after other types in the same process: %s (a fresh process generates a different document for the type: %s)%s: %s",
+						bf.Style, describeCheck(ck), class, from, firstN(bf.Batch.Fails[ck], 300)), w)
+			}
+		}
+	}
+	reportBatch()
+
+	// ------------------------------------------------------------------ stage 3: history runs
+	hst := runHistory(r, ev, sessions, sampled)
+	reportBatch()
+	phase("stage3-history")
+	if hst.observed == 0 && hst.flagged == 0 {
+		r.Fatal("vacuous: the history sessions observed no document")
+	}
+	if hst.flagged == 0 && r.Counter("history_obs_after_tagged_kin") == 0 {
+		r.Fatal("vacuous: no history observation was made after a type with a tagged field of a shared kind")
 	}
 
 	// ------------------------------------------------------------------ binding and tools/list
@@ -484,22 +574,33 @@ func main() {
 	}
 
 	r.Finish("stage 1: one struct type per feature of the grammar (14 primitive kinds, pointer, slice, array, map, nested/empty/reused struct, 3 embedding forms, []byte, interface{}, time.Time, "+
-		"json.RawMessage, json.Number, omitempty, ',string' (effective and ignored), json:\"-\", json:\"-,\", untagged, name-less tag, names containing / ~ % space non-ASCII, duplicate names, unexported field, "+
-		"15 jsonschema-tag classes) and every compiled corpus type (self/mutual recursion through pointer, slice, map; list, tree, forest; a type used twice; generic instantiations) x 4 option sets "+
-		"(default, inline, $defs, nested). stage 2: (a) every pair wrapper x inner type and field-level feature x type-level feature (710 types, deterministic), (b) seeded random compositions of feature "+
-		"subsets (reflect.StructOf, depth <= 5; quick 300 / thorough 5000 types), each x 4 option sets; a failing composition is "+
-		"re-tested without the fields carrying features that already fail alone and then minimised by delta debugging over fields, options and wrappers. Two generated values per type (small; boundary integers "+
-		"+-(2^53-1), non-ASCII strings), recursion cut at depth 2. Binding: 22 compiled types x value classes through a real Streamable server and library client; tools/list: the same types x 4 option sets "+
-		"(input and output schema) and 4 builder tools. A case is distinct by (stage, style, feature) in stage 1, by (style, number of features, struct depth) in stage 2, by (type, value class) for binding, "+
-		"by (tool kind, style, input/output, type) for tools/list, and is non-trivial when a schema was generated and judged by the oracle.",
+		"json.RawMessage, json.Number, a json.Marshaler and an encoding.TextMarshaler type, omitempty, ',string' (effective and ignored), json:\"-\", json:\"-,\", untagged, name-less tag, names containing / ~ % space non-ASCII, "+
+		"duplicate names, unexported field, 19 jsonschema-tag classes: description (plain, with commas), title, required, enum (strings / numbers / booleans / base64 / date-time), minimum+maximum, minLength+maxLength, "+
+		"minItems+maxItems, default, pattern, format, uniqueItems, example, semicolon syntax, and four 'tight' classes whose zone no untagged value falls into) and every compiled corpus type (self/mutual recursion "+
+		"through pointer, slice, map; list, tree, forest; a type used twice; generic instantiations) x 4 option sets (default, inline, $defs, nested). stage 2: (a) every pair wrapper x inner type, field-level feature x "+
+		"type-level feature, jsonschema-tag class x kind of field type (every kind of the grammar the class can sit on, special kinds and struct / container types included) and two sibling fields of one type "+
+		"with the tag on one of them, either order (about 1950 types, deterministic), (b) seeded random compositions of feature subsets (reflect.StructOf, depth <= 5; quick 300 / thorough 5000 types; tags land on fields of any kind), "+
+		"(c) the types of the history pools, each x 4 option sets; a failing document is generated once more by a fresh process for that type alone (when the two differ the batch document is reported as history-dependent "+
+		"and the stage verdict is the one on the fresh document); a failing composition is re-tested without the fields carrying features that already fail alone and then minimised by delta debugging over fields, "+
+		"options and wrappers. Two generated values per type (small; boundary integers +-(2^53-1), non-ASCII strings; inside the zone of the field's own tag, outside every tight zone otherwise), recursion cut at depth 2. "+
+		"stage 3 (history): per session a seeded pool of types sharing field kinds (tagged / untagged / below a wrapper / sibling), two unnamed nested struct types and compiled recursive types (tagged and untagged "+
+		"struct-typed fields, roots) plus random compositions; ONE child process generates every (type, style) of the pool 2 (thorough 3) times in seeded random order (A, B, A again, ...), a second child generates them "+
+		"concurrently from 4 (8) goroutines; every document is compared, as JSON with $defs names up to renaming, with the document of a fresh process that generated only that (type, style); a document that "+
+		"differs is judged by the ordinary oracle and the differing keywords are traced to the tags of the types generated before (quick 2 sessions / thorough 10). Binding: 22 compiled types x value classes "+
+		"through a real Streamable server and library client; tools/list: the same types x 4 option sets (input and output schema) and 4 builder tools. A case is distinct by (stage, style, feature) in stage 1, by "+
+		"(style, number of features, struct depth) or (style, pair) in stage 2, by (mode, style, occurrence of the (type, style) in the run, whether a type sharing a kind - tagged or not - came before) in stage 3, by "+
+		"(type, value class) for binding, by (tool kind, style, input/output, type) for tools/list, and is non-trivial when a schema was generated and judged.",
 		[]string{
 			"the reference for meta-schema validity, $ref resolution and instance acceptance is python jsonschema 4.x (Draft 2020-12, format not asserted, same-document references only)",
 			"$ref values are resolved leniently: percent-decoding, then RFC 6901; characters that a strict URI parser would refuse in a fragment are accepted",
-			"values obey the constraints their own jsonschema tags declare (enum member, minimum/maximum, lengths)",
+			"values obey the constraints their own jsonschema tags declare (enum member, minimum/maximum, lengths, pattern, item counts); a keyword that does not apply to the JSON type of the field's encoding constrains nothing",
 			"a type whose recursion passes through a pointer that cannot be omitted has no finite fully populated value: instance acceptance is not judged for it",
 			"names are compared where the schema describes an object with \"properties\" (and at the root), on nodes whose key set is not affected by the recursion cut",
+			"history: a document that differs from the fresh-process document is a violation only when one of the property's own checks fails on it (unresolved reference, names, a generated value rejected, crash); a difference " +
+				"in constraining keywords that no generated value refutes is reported as inconclusive, a difference in annotations (description, title, default, example, format) is only noted - the statement does not promise them",
+			"history: concurrent generation from several goroutines is part of 'every program'; a crash of that child is a violation, a child that does not finish is inconclusive",
 			"typed binding is judged on the JSON encoding of the received value (reflect.DeepEqual differences that are invisible in JSON are only counted)",
 			"tools/list fidelity is judged on Tool.RawInputSchema / RawOutputSchema; the re-parsed openapi3 object is only counted",
-			"random compositions are sampled, not enumerated",
+			"random compositions and history orders are sampled, not enumerated",
 		})
 }
